@@ -513,7 +513,7 @@ func (j *jsonReader) DateTime(tag int) (time.Time, error) {
 	switch val := j.getValue().(type) {
 	case string:
 		if strings.HasPrefix(val, "0x") {
-			parsed, err := strconv.ParseUint(val[2:], 10, 64)
+			parsed, err := strconv.ParseUint(val[2:], 16, 64)
 			if err != nil {
 				return time.Time{}, err
 			}
@@ -522,7 +522,12 @@ func (j *jsonReader) DateTime(tag int) (time.Time, error) {
 			if epoch < 0 {
 				return time.Time{}, Errorf("date-time cannot be negative")
 			}
-			return time.Unix(epoch, 0).UTC(), j.Next()
+			date := time.Unix(epoch, 0).UTC()
+			if date.Year() > 9999 {
+				// Not representable in the RFC 3339 form the writers produce
+				return time.Time{}, Errorf("date-time is out of bound")
+			}
+			return date, j.Next()
 		}
 		t, err := time.Parse(time.RFC3339, val)
 		if err != nil {
